@@ -367,6 +367,7 @@ def legenp(ctx, n, m, z, type=2, **kwargs):
     # Legendre function, 1st kind
     n = ctx.convert(n)
     m = ctx.convert(m)
+    z = ctx.convert(z)
     # Faster
     if not m:
         return ctx.legendre(n, z, **kwargs)
